@@ -31,7 +31,8 @@ SCENARIOS = {
 }
 KNOWN_SCENARIOS = {
     # scenarios that re-confirm an open known finding on the real code: (kind, argv)
-    "C20": [("torn-append", ["store-torn-append"])],
+    "C20": [("torn-append", ["store-torn-append"]),
+            ("wedged", ["store-history", "0", "all", "wedged", "set a 1; precreate-hint 2; merge; !set b 2; !get b"])],
     "C05": [("tombstone-dropped", ["store-history", "250", "frag50", "tombstone-dropped", D9_OPS])],
 }
 N_SEEDS = int(os.environ.get("VERIF_THOROUGH_SEEDS", "48"))
